@@ -951,6 +951,7 @@ class ServerTls(Server):
         """
         for ca, cx in self.cxes.items():
             if cx.serviceHandshake():
+                cx.refresh()  # handshake was activity on connection so restart its timer
                 if ca in self.ixes and self.ixes[ca] is not cx:
                     self.shutdownIx(ca)  # stale connection from same address
                 self.ixes[ca] = cx
